@@ -21,13 +21,14 @@ def E(name, params, ret, body, api="", group="prop"):
 class Ctx:
     """one build (configuration + extra wrappers) and cached analyses"""
 
-    def __init__(self, config, extra=(), only=None, lowbits_canon=False, partition_ops=(), summaries=False, track_mono=False):
+    def __init__(self, config, extra=(), only=None, lowbits_canon=False, partition_ops=(), summaries=False, track_mono=False, optional=()):
         self.config = config
+        self.optional = set(optional)
         self.summaries = summaries
         self.track_mono = track_mono
         self.lowbits_canon = lowbits_canon
         self.partition_ops = tuple(partition_ops)
-        self.built = runner.build(config, extra_entries=list(extra), only=only)
+        self.built = runner.build(config, extra_entries=list(extra), only=only, optional=self.optional)
         self.cache = {}
 
     def run(self, name, boxes=None, refine=True, seed=0):
